@@ -499,7 +499,7 @@ func RunC18(ctx *core.Ctx, r *core.Rng) {
 		var ops []TrieOp
 		for _, op := range tc.Ops {
 			if op.Op == "add" || op.Op == "del" || op.Op == "fanout" {
-				op.Scribble = false
+				op.Scribble, op.Nested = false, 0
 				ops = append(ops, op)
 			}
 		}
